@@ -862,6 +862,31 @@ def run_coefficients_reduced(chk, F, min_count=30):
                            '' if ok else 'the entries of the caller are copied with their raw coefficients outside '
                            'the Z_2 arm', key='E9|%s|%s|raw-copy' % (who, q['n']))
     chk.expect_count('E9-coefficient-reduced', 'coefficient reads / wholesale copies of caller ranges', n, min_count)
+    # a coefficient that is a multiple of the characteristic is 0 in the field: it is no entry. Where the reduced value
+    # of a caller's coefficient is stored, the path has compared it with zero (the additive identity)
+    z = 0
+    for f in F.functions:
+        if f['inst'] not in (0, 2) or f.get('body') is None or '/Persistence_matrix/' not in f['file']:
+            continue
+        ps_ = [q for q in f.get('params', [])
+               if (q.get('t') or '').replace('const ', '').replace('&', '').strip() in RANGE_TPARAMS]
+        if not ps_:
+            continue
+        who = '%s::%s' % (f.get('clsname'), f['name'].split('<')[0])
+        reads = [x for x in ir.walk(f['body']) if ir.is_call(x) and ir.call_name(x) == 'get_value' and ir.call_args(x)
+                 and ir.show(ir.skipcasts(ir.call_args(x)[0])).endswith('.second')]
+        if not reads:
+            continue
+        z += 1
+        tested = any(y.get('k') == 'IfStmt' and any(op in ir.show(y.get('cond')) for op in ('!=', '==')) and
+                     ('get_additive_identity' in ir.show(y.get('cond')) or
+                      re.search(r'(!=|==)\s*0u?\b', ir.show(y.get('cond')))) for y in ir.walk(f['body']))
+        chk.ob('E9-coefficient-reduced', '%s drops the entries of the caller whose coefficient is 0 in the field'
+               % who, '%s:%s' % (rel(f['file']), reads[0].get('l')), tested,
+               '' if tested else 'the reduced coefficient is stored without a test against zero: a coefficient which is '
+               'a multiple of the characteristic becomes an entry of value 0, the column is "not empty" with a pivot '
+               'that no reduction can cancel', key='E9|%s|zero-coefficient' % who)
+    chk.expect_count('E9-coefficient-reduced', 'functions storing reduced coefficients of a caller range', z, 9)
 
 
 # ------------------------------------------------------------------ E4 "no characteristic yet" is one value
